@@ -129,6 +129,7 @@ fn exec_two(sc: &Scn, render: bool) -> RunOutput {
     let mut horizon = false;
     let mut frames_seen = 0usize;
     let mut half_released: Vec<(usize, u32)> = Vec::new();
+    let mut half_released_tags: Vec<Tag> = Vec::new();
     loop {
         if w.sim.steps >= 4000 {
             horizon = true;
@@ -174,10 +175,13 @@ fn exec_two(sc: &Scn, render: bool) -> RunOutput {
         // flow may cross the Connect (finding F1, see DESIGN.md 9.4)
         if mon.frames.len() > frames_seen {
             for (side, f) in &mon.frames[frames_seen..] {
-                if let RFrame::Connect { id, .. } = f {
+                if let RFrame::Connect { id, host, .. } = f {
                     if let Some(peer) = w.mux[1 - *side].as_ref() {
                         if peer.verif_flow_digest().iter().any(|d| d.id == *id && d.kind == 1) {
                             half_released.push((*side, *id));
+                            if let Some(r) = sc.reqs.iter().find(|r| r.side == *side && &r.host == host) {
+                                half_released_tags.push(r.tag);
+                            }
                         }
                     }
                 }
@@ -339,9 +343,15 @@ fn exec_two(sc: &Scn, render: bool) -> RunOutput {
         // under ONE specific key, so that the known-findings entry cannot hide anything else: every other violation in
         // such an execution keeps its own key.
         const F1_SIGNATURE: [&str; 3] = ["handshake.ack-rwnd", "open.initial-credit", "ack.unreceived"];
-        let consequences: Vec<String> = viol.iter().filter(|(k, _)| F1_SIGNATURE.contains(&k.as_str())).map(|(k, _)| k.clone()).collect();
-        let first = viol.iter().find(|(k, _)| F1_SIGNATURE.contains(&k.as_str())).map(|(_, d)| d.clone()).unwrap_or_default();
-        viol.retain(|(k, _)| !F1_SIGNATURE.contains(&k.as_str()));
+        // ... and, for the very request whose Connect re-used the half-released id: it "succeeds" on the stale
+        // Acknowledge, then the peer rejects its Connect (the id is in use there), so it pairs with no accepted stream
+        // and carries no data
+        let is_f1 = |k: &str, d: &str| {
+            F1_SIGNATURE.contains(&k) || (matches!(k, "open.pairing" | "open.stream-broken") && half_released_tags.iter().any(|t| d.starts_with(&format!("request {t} ")) || d.starts_with(&format!("request {t}:"))))
+        };
+        let consequences: Vec<String> = viol.iter().filter(|(k, d)| is_f1(k, d)).map(|(k, _)| k.clone()).collect();
+        let first = viol.iter().find(|(k, d)| is_f1(k, d)).map(|(_, d)| d.clone()).unwrap_or_default();
+        viol.retain(|(k, d)| !is_f1(k, d));
         if !consequences.is_empty() {
             push_viol(&mut viol, "reuse.half-released-id", format!("side {side} proposed flow id {id:#x} again after releasing it while side {} still held the old flow on that id; frames of the old flow that crossed the Connect were taken for the new request (consequences: {consequences:?}; first: {first})", 1 - side));
         }
